@@ -9,7 +9,7 @@ from pathlib import Path
 from hypothesis import strategies as st
 
 from pbt import strategies as S
-from pbt.common import Stats, Sub, Violation
+from pbt.common import Stats, Sub, Violation, scratch_dir
 from pbt.model import Model, norm_records, prefixes_of, uri_prefixes_of
 from pbt.sut import Converter, curies, dump_records, mk_records
 
@@ -35,7 +35,6 @@ ASSUMPTIONS = [
     "for from_rdflib the oracle is rdflib's own namespaces() listing",
 ]
 
-_TMP = tempfile.TemporaryDirectory(prefix="curies-c13-")
 _n = [0]
 KINDS = ["prefix_map", "priority", "reverse", "epm", "jsonld", "rdflib", "upgrade"]
 
@@ -124,11 +123,11 @@ def _via_files(obj, loader, what):
     # The SAME file name is rewritten for every case of a loader kind (and deliberately not deleted in between): a loader
     # must return what the file holds NOW, so any caching keyed on the location shows up as a stale converter.
     _n[0] += 1
-    path = Path(_TMP.name) / f"in-{what}.json"
+    path = scratch_dir() / f"in-{what}.json"
     path.write_text(json.dumps(obj))
     first = loader(str(path)), loader(path)
     if _n[0] % 3 == 0:  # and sometimes a fresh, never-seen name
-        fresh = Path(_TMP.name) / f"in-{what}-{_n[0]}.json"
+        fresh = scratch_dir() / f"in-{what}-{_n[0]}.json"
         fresh.write_text(json.dumps(obj))
         try:
             return loader(str(fresh)), loader(fresh)
